@@ -48,6 +48,58 @@ class Provenance:
                         self._lits.setdefault(n["def"], []).append((f, n))
         return self._lits.get(adt, [])
 
+    def collected_tuple_element(self, fn, org):
+        """`for (a, b, ..) in v` where `v = <iter>.map/filter_map(|x| .. (ea, eb, ..) ..).collect()`: the expression that
+        produced the element the binding names (None when the binding is not of that shape)"""
+        chain, scrut = org
+        idx = [i for d, i in chain if d == "Tuple"]
+        if len(idx) != 1:
+            return None
+        origins = core.binding_origins(fn)
+
+        def local_of(e):
+            e = core.strip(e)
+            while e.get("k") in ("AddrOf", "Unary", "DropTemps"):
+                e = core.strip(e["e"])
+            if e.get("k") in ("Call", "MethodCall"):
+                args = core.call_args(e)
+                nm = (core.callee_generic(e) or "").rsplit("::", 1)[-1]
+                if nm in ("next", "into_iter", "iter", "drain") and args:
+                    return local_of(args[0])
+                return None
+            return e if e.get("k") == "Path" and e.get("res") == "local" else None
+        cur = local_of(scrut)
+        hops = 0
+        init = None
+        while cur is not None and hops < 4:
+            hops += 1
+            o = origins.get(cur["lid"])
+            if o is None or o[1] is None:
+                return None
+            nxt = local_of(o[1])
+            if nxt is None:
+                init = o[1]
+                break
+            cur = nxt
+        if init is None:
+            return None
+        col = core.strip(init)
+        if not (col.get("k") == "MethodCall" and col["m"] == "collect"):
+            return None
+        e = core.strip(col["recv"])
+        while e.get("k") == "MethodCall":
+            if e["m"] in ("map", "filter_map") and e["args"] and core.strip(e["args"][0]).get("k") == "Closure":
+                body = core.strip(core.strip(e["args"][0])["body"])
+                while body.get("k") == "Block" and "expr" in body["b"]:
+                    body = core.strip(body["b"]["expr"])
+                if body.get("k") == "Call" and (core.callee(body) or "").endswith("Option::Some") and body["args"]:
+                    body = core.strip(body["args"][0])
+                if body.get("k") == "Tup" and idx[0] < len(body["args"]):
+                    return body["args"][idx[0]]
+                return None
+            e = core.strip(e["recv"])
+        return None
+
     def accepted(self, fn, e, depth=0, seen=None):
         seen = seen or set()
         if depth > 10:
@@ -75,6 +127,9 @@ class Provenance:
             # a loop variable / pattern binding: follow its origin
             org = core.binding_origins(fn).get(lid)
             if org is not None and org[1] is not None:
+                src = self.collected_tuple_element(fn, org)
+                if src is not None:
+                    return self.accepted(fn, src, depth + 1, seen)
                 return self.accepted(fn, org[1], depth + 1, seen)
             # a parameter: every call site must pass an accepted id
             root = fn.d.get("root") or fn.path
